@@ -5,6 +5,38 @@ Import RecordSetNotations.
 
 Lemma sinv_closeErr s b : SInv s -> SInv (s <| closeErr := b |>). Proof. intros I. irrel I. Qed.
 
+(** D16 repair: Close (holding handlersLock, so nobody is inside RunHandlers) releases and removes the
+    handlers that were never started *)
+Lemma sinv_close_unstarted s : SInv s -> lockpc s = None -> SInv (close_unstarted s).
+Proof.
+  intros I Q. unfold close_unstarted. destruct (fix16 s); [|exact I].
+  destruct (no_mid s None I Q) as [N1 N2]; try discriminate.
+  assert (RP : forall h, h < nexth s -> removable (hs s h) = true -> pendh (hs s h) = true).
+  { intros h Hh R. unfold removable in R. apply andb_true_iff in R as [R1 R2]. apply negb_true_iff in R2.
+    pose proof (i_inmap _ I h Hh) as IM. rewrite R1 in IM. symmetry in IM. apply andb_true_iff in IM as [_ IM].
+    destruct (i_hrec _ I h). unfold pendh. rewrite IM.
+    destruct (h_loop (hs s h)) eqn:L; try reflexivity; exfalso;
+      (assert (X : h_started (hs s h) = true) by (apply r_loop; congruence); congruence). }
+  destruct (cnt_sub (fun h => pendh (hs s h)) (fun h => removable (hs s h)) (nexth s) RP) as [CS CL].
+  pose proof I as I0. dI I. constructor; unfold lockpc in *; simpl; try assumption.
+  - intros h Hh. now rewrite (J4 h Hh).
+  - intros h. destruct (removable (hs s h)) eqn:R; auto. destruct (J5 h). unfold removable in R.
+    apply andb_true_iff in R as [R1 R2]. apply negb_true_iff in R2.
+    constructor; simpl; auto.
+  - intros h Hh. destruct (removable (hs s h)) eqn:R; simpl; auto. now rewrite andb_false_r.
+  - intros h. destruct (removable (hs s h)); simpl; auto.
+  - intros h X. apply J8 in X. destruct (removable (hs s h)); simpl; auto.
+  - intros h X. apply J9 in X. destruct (removable (hs s h)); simpl; auto.
+  - intros h. destruct (removable (hs s h)); simpl; auto.
+  - intros X h Hh. destruct (removable (hs s h)) eqn:R; simpl; [discriminate|auto].
+  - intros t h a X. destruct (J18 t h a X) as [A B]. split; auto. destruct (removable (hs s h)); simpl; auto.
+  - intros t h a X. pose proof (J19 t h a X). destruct (removable (hs s h)); simpl; auto.
+  - rewrite J21, <- CS. apply cnt_ext. intros h Hh. destruct (removable (hs s h)) eqn:R; unfold pendh; simpl.
+    + rewrite ?andb_false_r; reflexivity.
+    + rewrite ?andb_true_r; reflexivity.
+  - rewrite J22. simpl. apply Nat.ltb_ge. rewrite J21. exact CL.
+Qed.
+
 (** ** Close, executed by a client thread or by the watcher *)
 Ltac thr_others F :=
   try (intros t'; upds; simpl; auto; try solve [intuition (congruence || discriminate)]);
@@ -142,7 +174,7 @@ Proof.
   - intros t h' a X. destruct (J18 t h' a X) as [Y Z]. split; [lia|]. rewrite upd_other by lia. exact Z.
   - intros t h' a X. destruct (J18 t h' a (or_intror X)) as [Y _]. rewrite upd_other by lia. eauto.
   - match goal with |- _ = cnt ?f _ + _ =>
-      assert (X : cnt f (nexth s) = cnt (fun h1 => pend (h_loop (hs s h1))) (nexth s))
+      assert (X : cnt f (nexth s) = cnt (fun h1 => pendh (hs s h1)) (nexth s))
         by (apply cnt_ext; intros h' Hh'; rewrite upd_other by lia; reflexivity) end.
     rewrite X, upd_same. simpl. lia.
 Qed.
@@ -192,13 +224,16 @@ Proof.
   { destruct R. destruct (h_loop (hs s h)) eqn:X; auto; exfalso;
       assert (h_started (hs s h) = true) by (apply r_loop; congruence); congruence. }
   assert (Hs0 : h_subs (hs s h) = 0). { destruct R. rewrite (r_subs0 Hst), Mh. reflexivity. }
+  assert (Rm : h_removed (hs s h) = false).
+  { rewrite Him in IM. symmetry in IM. apply andb_true_iff in IM as [_ IM]. now apply negb_true_iff in IM. }
   eapply sinv_locked_move; eauto; try reflexivity.
-  - destruct R. destruct (fix4 s) eqn:F4; constructor; simpl; rewrite ?Hl, ?Hs0 in *; simpl; auto;
+  - destruct R. destruct (fix4 s) eqn:F4; constructor; simpl; rewrite ?Hl, ?Hs0, ?Rm in *; simpl; auto;
       try solve [intuition (congruence || discriminate)].
-  - destruct (fix4 s); simpl; rewrite Hl; simpl; exact Him.
+  - destruct (fix4 s); simpl; rewrite Hl, Rm; simpl; exact Him.
   - destruct (fix4 s); simpl; intros; congruence.
   - destruct (fix4 s); simpl; intros X; destruct R; rewrite (r_sch X) in Hst; discriminate.
   - destruct (fix4 s); simpl; reflexivity.
+  - destruct (fix4 s); reflexivity.
   - intros h' X. updt h h'; [reflexivity|]. rewrite N1 in X by discriminate. discriminate.
   - intros h' X. injection X as <-. rewrite upd_same. destruct (fix4 s); reflexivity.
   - intros h' X. discriminate.
@@ -228,7 +263,8 @@ Proof.
     intros _; rewrite (r_subs0 Hst), Mh; auto
   | simpl; exact IM
   | simpl; auto | simpl; auto
-  | simpl; rewrite Hl; reflexivity
+  | unfold pendh; simpl; rewrite Hl; reflexivity
+  | reflexivity
   | intros h' X; exfalso; updt h h'; [discriminate|]; rewrite N1 in X; [discriminate|congruence]
   | intros h' X; discriminate
   | intros h' X; injection X as <-; rewrite upd_same; simpl; auto
@@ -254,7 +290,8 @@ Proof.
   | destruct (fix4 s); simpl; rewrite IM, Hl; reflexivity
   | destruct (fix4 s); simpl; auto
   | destruct (fix4 s); simpl; auto
-  | destruct (fix4 s); simpl; rewrite Hl; reflexivity
+  | destruct (fix4 s); unfold pendh; simpl; rewrite Hl; reflexivity
+  | destruct (fix4 s); reflexivity
   | intros h' X; exfalso; updt h h';
     [ destruct (fix4 s); simpl in X; rewrite N1 in X; discriminate | rewrite N1 in X; discriminate ]
   | intros h' X; discriminate
@@ -368,8 +405,12 @@ Proof.
     + destruct (closedF s); injection CL as <- <-.
       * change (SInv ((set_t (s <| hlock := None |>) t (TClose (KRet (negb (closeErr s))))) <| clock := None |>)).
         apply sinv_clock. eapply k_release_thr; eauto.
-      * change (SInv ((set_t s t (TClose KWait)) <| closedF := true |> <| closingCh := true |>)).
-        apply sinv_closingCh, sinv_closedF. eapply k_move_thr; eauto.
+      * change (SInv ((set_t (close_unstarted s) t (TClose KWait)) <| closedF := true |> <| closingCh := true |>)).
+        apply sinv_closingCh, sinv_closedF.
+        assert (HL : hlock s = Some (OThr t)) by (apply hl_of_thr; auto; now rewrite E).
+        apply (k_move_thr _ t KCheck); auto.
+        -- apply sinv_close_unstarted; auto. eapply lockpc_closer_thr; eauto.
+        -- unfold close_unstarted. destruct (fix16 s); exact E.
     + destruct (Nat.eqb (hwg s) 0 && none_inflight s); [|discriminate]. injection CL as <- <-.
       eapply k_move_thr; eauto.
     + injection CL as <- <-.
@@ -446,8 +487,12 @@ Proof.
     + destruct (closedF s); injection CL as <- <-; injection H as <- <-.
       * change (SInv ((s <| hlock := None |> <| wat := WDone |>) <| clock := None |>)).
         apply sinv_clock. eapply k_release_wat; eauto.
-      * change (SInv ((s <| wat := WClose KWait |>) <| closedF := true |> <| closingCh := true |>)).
-        apply sinv_closingCh, sinv_closedF. eapply k_move_wat; eauto.
+      * change (SInv ((close_unstarted s <| wat := WClose KWait |>) <| closedF := true |> <| closingCh := true |>)).
+        apply sinv_closingCh, sinv_closedF.
+        assert (HL : hlock s = Some OWatch) by (apply hl_of_wat; auto; now rewrite E).
+        apply (k_move_wat _ KCheck); auto.
+        -- apply sinv_close_unstarted; auto. now apply lockpc_watch.
+        -- unfold close_unstarted. destruct (fix16 s); exact E.
     + destruct (Nat.eqb (hwg s) 0 && none_inflight s); [|discriminate]. injection CL as <- <-. injection H as <- <-.
       eapply k_move_wat; eauto.
     + injection CL as <- <-. injection H as <- <-.
@@ -488,5 +533,5 @@ Proof.
   destruct (step s l) as [[s' evs]|] eqn:E; [|now apply IH]. apply IH. eapply step_sinv; eauto.
 Qed.
 
-Theorem reachable_sinv f4 f14 f15 ls : SInv (run (rinit f4 f14 f15) ls).
+Theorem reachable_sinv f4 f14 f15 f16 ls : SInv (run (rinit f4 f14 f15 f16) ls).
 Proof. apply run_sinv, sinv_init. Qed.
